@@ -37,6 +37,9 @@ type c16Case struct {
 	// Prior: sequences of an earlier Phase() run on the SAME Phaser (same references), whose stream is
 	// consumed and dropped; the run that is judged must be what a fresh Phaser gives
 	Prior []string `json:"prior,omitempty"`
+	// CodesBefore: the same sequences are first phased, by Phasers of their own, under these genetic codes (what
+	// the process did before the run that is judged)
+	CodesBefore []int `json:"codes_before,omitempty"`
 	// Scores: flat match / mismatch scores given through SetAlignScores (--match / --mismatch)
 	Scores []float64 `json:"scores,omitempty"`
 }
@@ -271,6 +274,11 @@ type c16Out struct {
 // scheduler the consumer announces its receives like instrumented code does.
 func c16Run(cs c16Case) c16Out {
 	var out c16Out
+	for _, code := range cs.CodesBefore {
+		before := cs
+		before.CodesBefore, before.Code = nil, code
+		c16Run(before)
+	}
 	seqs, err := mkSeqBag(align.NUCLEOTIDS, namedRows(cs.Seqs...))
 	if err != nil {
 		out.err = err
@@ -924,12 +932,19 @@ func c16Tasks(tier string) []mc.Task {
 	// translate off / on under the three genetic codes: a reference whose codons read differently
 	// (ATA, AGA, TGA): the reported amino acids are the translation of the reported codons under that code
 	ts = append(ts, mc.Task{Name: "phase#codes", Run: func(c *mc.Ctx) {
-		const ref = "ATGATAAGATGGTGACCCTAA"
-		for _, f5 := range []string{"", "C", "CC"} {
-			for _, code := range geneticCodes {
-				for _, tr := range []bool{false, true} {
-					for _, ce := range []bool{false, true} {
-						c16CheckPhase(c, c16Case{Kind: "phase", Seqs: []string{f5 + ref + "G"}, Orf: ref, Translate: tr, CutEnd: ce, Code: code, Cpus: 1})
+		// the second reference holds ambiguous codons whose (unique) amino acid differs between the codes (AGR,
+		// ATR, TGR); the three codes follow each other in one process, in both directions
+		for _, ref := range []string{"ATGATAAGATGGTGACCCTAA", "ATGAGRATRTGRCCCGGGTAA"} {
+			for _, f5 := range []string{"", "C", "CC"} {
+				for k, code := range geneticCodes {
+					// every case carries its own history: the two other codes, in both orders, then the judged one
+					o1, o2 := geneticCodes[(k+1)%3], geneticCodes[(k+2)%3]
+					for _, before := range [][]int{{o1, o2}, {o2, o1}} {
+						for _, tr := range []bool{false, true} {
+							for _, ce := range []bool{false, true} {
+								c16CheckPhase(c, c16Case{Kind: "phase", Seqs: []string{f5 + ref + "G"}, Orf: ref, Translate: tr, CutEnd: ce, Code: code, Cpus: 1, CodesBefore: before})
+							}
+						}
 					}
 				}
 			}
@@ -1071,7 +1086,7 @@ func init() {
 		Level: "model_checking",
 		Rule: "Command line: goalign phase and phasent (one thread) on 4 sequence sets x reference given / detected x --reverse x --cut-end x genetic code x 7 sets of given flags among --len-cutoff, --match-cutoff, --match, --mismatch, --gap-open, --gap-extend, and goalign orf (--reverse) on 7 sets: the files written must be those of the library configured the same way (documented defaults for flags not given). " + "schedule part: stateless DFS over all interleavings of the real Phase goroutines (sequence producer, cpus workers, closer, consuming harness thread) with iterative preemption bounds 0..2 (quick) / 0..3 (thorough), 3 sequences x cpus 1..3 x {translate, nt}; error path with an untranslatable sequence in each position; no reference + a sequence without similarity. " +
 			"function-entry part: 2 sequences, 2 workers, translate on/off, every function entry of goalign (functions of >= 4 statements) an additional scheduling point, preemption bound 1. " +
-			"(49..52, 101 and 257 sequences through Phase with 1..3 workers: one result per sequence;) input part: LongestORF on all sequences of length <=9 (quick) / <=11 (thorough) over {A,T,G,C} plus a family of overlapping-frame sequences (upper/lower case, U) and every concatenation of up to 7 (thorough 8) codon tokens from {ATG,TAA,TGA,AAA,C} against a brute-force scan; SeqBag.LongestORF on pairs, and on sets where a short ORF behind a 5' flank of 0..12 bases stands before/after a sequence holding an ORF of 0..5 inner codons with flanks of 0..3 / 0..2 bases on either strand (ORF lengths, ORF end coordinates and sequence lengths in every order); inputs unmodified by the ORF search (both strands) and by Phase without reference on sequences holding U, lower case, X, N, ? ; a reference with codons that read differently under the three codes x translate on/off; Phase on ORF copies with 5 five-prime flanks x (exact | 18 single substitutions | reverse complement) x 3 three-prime flanks, alone / with a no-similarity sequence / in a set of 3, x translate x reverse x cut-end x genetic codes x reference supplied or not; two references in both orders against sequences that open with a 5'-truncated piece of one and contain the other verbatim (and truncated piece forward + whole ORF on the reverse strand). " +
+			"(49..52, 101 and 257 sequences through Phase with 1..3 workers: one result per sequence;) input part: LongestORF on all sequences of length <=9 (quick) / <=11 (thorough) over {A,T,G,C} plus a family of overlapping-frame sequences (upper/lower case, U) and every concatenation of up to 7 (thorough 8) codon tokens from {ATG,TAA,TGA,AAA,C} against a brute-force scan; SeqBag.LongestORF on pairs, and on sets where a short ORF behind a 5' flank of 0..12 bases stands before/after a sequence holding an ORF of 0..5 inner codons with flanks of 0..3 / 0..2 bases on either strand (ORF lengths, ORF end coordinates and sequence lengths in every order); inputs unmodified by the ORF search (both strands) and by Phase without reference on sequences holding U, lower case, X, N, ? ; two references with codons that read differently under the three codes (plain: ATA, AGA, TGA; ambiguous: AGR, ATR, TGR) x translate on/off, each code after the others have been used in the same process; Phase on ORF copies with 5 five-prime flanks x (exact | 18 single substitutions | reverse complement) x 3 three-prime flanks, alone / with a no-similarity sequence / in a set of 3, x translate x reverse x cut-end x genetic codes x reference supplied or not; two references in both orders against sequences that open with a 5'-truncated piece of one and contain the other verbatim (and truncated piece forward + whole ORF on the reverse strand). " +
 			"distinct_nontrivial counts distinct (case, schedule) executions plus input cases whose result was fully compared.",
 		Assumptions: []string{
 			"results flagged Removed (discarded by the cut-offs) are only counted, their framing is not compared",
